@@ -168,6 +168,23 @@ def run_port(case):
     return {"nontrivial": nt, "classes": sorted(classes)}
 
 
+def port_lattice(tier, shard, nshards):
+    """bounded-exhaustive threshold lattice: rate 8*64 (a 64-byte packet takes 1 s), every arrival sequence of up to 5 (thorough 6)
+    packets over the instants {0, 0.5 (during the first transmission), 1 (exactly its end), 1 late, 2.5}, for every packet limit
+    1..4 and the byte limits 64, 128, 192 with sizes 64"""
+    import itertools
+    slots = [(0, 0), (0.5, 0), (1, 0), (1, 2), (2.5, 0)]
+    maxlen = 6 if tier == "thorough" else 5
+    i = 0
+    for ln in range(2, maxlen + 1):
+        for combo in itertools.combinations_with_replacement(range(len(slots)), ln):
+            wl = [[slots[c][0], j % 2, 64, None, slots[c][1]] for j, c in enumerate(combo)]
+            for by_bytes, q in [(False, 1), (False, 2), (False, 3), (False, 4), (True, 64), (True, 128), (True, 192)]:
+                if i % nshards == shard:
+                    yield {"exact": True, "rate": 512, "wl": wl, "eid": "lat", "limit_bytes": by_bytes, "qlimit": q}
+                i += 1
+
+
 def port_strategy(tier):
     big = tier == "thorough"
 
@@ -412,7 +429,7 @@ PROP = Property(
           "constant random draw u: reference EWMA in Fractions; accepted below min, dropped at/above qlimit, in between dropped "
           "iff u <= curve probability (1e-9 dead band); non-trivial = >=3 RED regions visited."),
     facets=[
-        Facet("port", port_strategy, run_port, quick=1500, thorough=8000,
+        Facet("port", port_strategy, run_port, quick=1500, thorough=8000, exhaustive=port_lattice,
               essential=["accepted", "refused", "byte decision within 1 of the limit", "packet decision within 1 of the limit",
                          "rate 0", "no limit", "queued behind another packet"]),
         Facet("monitor", monitor_strategy, run_monitor, quick=400, thorough=2500,
